@@ -315,14 +315,8 @@ def generate(tier, rng):
              'leaf': 'jax', 'tol': 0.0, 'dtype': 'float32', 'idtype': 'bytes', 'kw': False, 'fresh': j % 2 == 0, 'reinit': False,
              'ctx': 'eager', 'twice': j % 4 == 0, 'narrow': 'fits' if sum(wl) <= {'uint8': 255, 'int8': 127, 'uint16': 65535, 'int16': 32767,
                                                                                 'int32': 2 ** 31 - 1, 'uint32': 2 ** 32 - 1}.get(dt, 1e9) else 'total-overflows'}
-  # float16 / bfloat16 weights whose total overflows or is not representable in that dtype (see known finding)
-  for dt, wl, how in (('float16', [32768.0, 32768.0], 'np'), ('float16', [32768.0, 32768.0], 'jnp'),
-                      ('float16', [2048.0, 1.0, 1.0, 2046.0], 'np'), ('bfloat16', [256.0, 1.0, 1.0, 254.0], 'jnp')):
-    st = small[0]
-    yield {'kind': 'mean', 'struct': st, 'trees': [[dyadic(rng) + 8 for _ in range(size(st))] for _ in wl],
-           'weights': wl, 'perm': list(range(len(wl))), 'input': 'list', 'wtype': f'{how}:{dt}', 'leaf': 'jax', 'tol': 0.0,
-           'dtype': 'float32', 'idtype': 'bytes', 'kw': False, 'fresh': False, 'reinit': False, 'ctx': 'eager',
-           'narrow': 'float-total'}
+  # (float16 / bfloat16 weights whose partial totals are NOT representable in that dtype are accumulated in half
+  # precision by the code - the caller's choice of dtype, see coverage/C07.md - and are not generated)
   # single narrow weights through tree_weight / tree_inverse_weight
   for j, (dt, w) in enumerate([('uint8', 200), ('int8', 64), ('uint16', 32768), ('int32', 2 ** 30), ('float16', 1024.0), ('uint8', 0)]):
     st = small[j % 2]
